@@ -23,8 +23,8 @@ Definition sb_cur_facts : sb_facts := Eval vm_compute in
 Definition sb_cur_raw_reads : list (sb_name * sb_name) := Eval vm_compute in
   map (fun p => (sb_enc (fst p), sb_enc (snd p))) f_sb_raw_reads.
 
-Definition sb_cur_body_scan : list (sb_name * (bool * bool)) := Eval vm_compute in
-  map (fun p => (sb_enc (fst p), snd p)) f_sb_body_scan.
+Definition sb_cur_purity_raw : list (sb_name * (bool * bool)) := Eval vm_compute in
+  map (fun p => (sb_enc (fst p), (fst (snd p), fst (snd (snd p))))) f_sb_purity.
 Definition sb_cur_console_returns_hidden : bool := Eval vm_compute in f_sb_console_returns_hidden.
 
 (* the analysis' own sanity: its self-test passed (mutating idioms rejected, the pure idioms of the tree accepted), and
@@ -40,6 +40,14 @@ Definition sb_trusted_read_methods : list sb_name := Eval vm_compute in
 Definition sb_read_methods_ok (rm : list (sb_name * (bool * bool))) : bool :=
   Nat.leb 20 (List.length rm) &&
   forallb (fun p => fst (snd p) && (snd (snd p) || sb_mem (fst p) sb_trusted_read_methods)) rm.
+
+(* reflective reads reachable from side-effect-free natives: all through GetFieldByName(.., true, ..), the accessor that
+   tests no_user_view with `sandboxed` hard-wired; Reference#get is among them (it is the one that really gets there) *)
+Definition sb_cur_native_reflect : list (sb_name * sb_name) := Eval vm_compute in
+  map (fun p => (sb_enc (fst p), sb_enc (snd (snd p)))) f_sb_native_reflect.
+Definition sb_n_gfbn_true := Eval vm_compute in sb_enc "GetFieldByName:true".
+Definition sb_native_reads_checked (l : list (sb_name * sb_name)) : bool :=
+  forallb (fun p => snd p =? sb_n_gfbn_true) l && existsb (fun p => fst p =? sb_n_ref_get) l.
 
 (* the libraries linked into the harness: what the live enumeration can see *)
 Definition sb_cur_func_libs : list (sb_name * sb_name) := Eval vm_compute in
